@@ -29,8 +29,13 @@ def _collect(repo, W, clause, rule, only_funcs=None):
                 fn = repo.maybe_fn(outer)
         if fn is None:
             fn = FileObj("?", qual)
+        # a clash between two NAMED index spaces (structure atoms, pattern atoms, replacement atoms ...) is a contradiction inside the analysed code, whatever shape the
+        # function has; a clash that involves an inferred anonymous space (filter / sorted / loop spaces, marked #) may be an artefact of the inference
+        spaces = re.findall(r"\[([^\]]*)\]", detail)
+        named = bool(spaces) and all(("#" not in sp and "?" not in sp and "None" not in sp) for sp in spaces)
         obs.append(Ob(rule, clause, fn, node, ok, "%s: %s" % (what, detail),
-                      slot="%s:%s" % (what, re.sub(r"\s+", " ", ast.unparse(node))[:100]), positive=True))
+                      slot="%s:%s" % (what, re.sub(r"\s+", " ", ast.unparse(node))[:100]),
+                      positive="robust" if (not ok and named and what in ("membership", "compare-idx", "map-lookup", "set-op", "extend-map-key", "extend-map-value")) else True))
     return obs
 
 
